@@ -451,7 +451,7 @@ Definition h_xadd (d : db) (parts : list frame) (oracle : option frame) : frame 
                         | Some s' => (r_sid id, put_stream d k e s')
                         | None => (r_err, d)
                         end
-                    | SWrong => (r_wrongtype, d)
+                    | SWrong => (r_err, d)      (* the handler rewraps every engine error as "ERR ..." *)
                     | SMissing =>
                         match st_add_with_id empty_stream id f with
                         | Some s' => (r_sid id, put_entry d k (new_entry s'))
